@@ -48,6 +48,15 @@ func Alias(g *G, n int) []Program {
 			zm = 4 // ToNegativeInf: the sign of exact zero results depends on it
 		}
 		uniform := g.Bool()
+		if i%8 == 3 && (op == "Quo" || op == "Mul" || op == "Add" || op == "Sub") {
+			// a long first operand, a short second one and a receiver precision far below the operand's length:
+			// the operation needs no copy of x and may be tempted to work in x's storage
+			xd, yd = g.Digits(58+g.R.Intn(140)), g.Digits(1+g.R.Intn(22))
+			ye = xe - int64(len(xd)) + int64(g.R.Intn(40))
+			xp, yp = len(xd), len(yd)
+			zp = g.Pick(1, 3, 10, 19, 20)
+			uniform = false
+		}
 		if uniform {
 			// one precision for everybody (Load raises it to the digit count, so take the maximum)
 			P := len(xd)
@@ -134,6 +143,43 @@ func Alias(g *G, n int) []Program {
 				g.Emit(s)
 			}
 		}
+		// setters (arguments that are not Decimals) into the three receiver histories: the result may not depend on what
+		// the receiver held before. Integers at the places where the digit-count estimate of the conversion is one word
+		// too long (19 digits and >= 2^63, 38 and >= 2^126, 57 and >= 2^189), around the word base, powers of ten.
+		if i%3 == 0 {
+			sinst := "s" + itoa(int64(i))
+			v := g.PickS("9223372036854775808", "9999999999999999999", "10000000000000000000", "9223372036854775807", "18446744073709551616",
+				"85070591730234615865843651857942052864", "99999999999999999999999999999999999999", "100000000000000000000000000000000000000",
+				"784637716923335095479473677900958302012794430558004314112", "999999999999999999999999999999999999999999999999999999999",
+				g.Digits(19), g.Digits(38), g.Digits(1+g.R.Intn(60)), "1"+zeros(g.Pick(18, 19, 37, 38, 57)))
+			den := g.PickS("1", "1", "3", "7", "1024", "9223372036854775808", g.Digits(20))
+			kind := g.R.Intn(4)
+			sp, sm := g.Pick(0, 5, 19, 20, 38, 40, 100), g.Mode()
+			for h := 0; h < 3; h++ {
+				switch h {
+				case 0:
+					g.Emit(M{"op": "New", "z": "r2"})
+				case 1:
+					g.Load("r2", g.Bool(), g.Digits(300+g.R.Intn(300)), g.Exp(), 0, g.Mode())
+				default:
+					g.Load("r2", g.Bool(), g.Digits(40+g.R.Intn(40)), g.Exp(), 0, g.Mode())
+					g.Emit(M{"op": "SetInf", "z": "r2", "neg": true})
+				}
+				g.Emit(M{"op": "SetMode", "z": "r2", "m": sm})
+				g.Emit(M{"op": "SetPrec", "z": "r2", "p": sp})
+				var st M
+				switch kind {
+				case 0, 1:
+					st = M{"op": "SetInt", "z": "r2", "i": g.signed(v, i)}
+				case 2:
+					st = M{"op": "SetRat", "z": "r2", "num": g.signed(v, i), "den": den}
+				default:
+					st = M{"op": "SetString", "z": "r2", "s": v + "e-7", "base": 0}
+				}
+				st["inst"] = sinst
+				g.Emit(st)
+			}
+		}
 		if g.Pending() >= 150 {
 			out = append(out, g.Flush("alias"))
 		}
@@ -142,4 +188,20 @@ func Alias(g *G, n int) []Program {
 		out = append(out, g.Flush("alias"))
 	}
 	return out
+}
+
+func zeros(n int) string {
+	b := make([]byte, n)
+	for i := range b {
+		b[i] = '0'
+	}
+	return string(b)
+}
+
+// signed prefixes v with "-" for odd i.
+func (g *G) signed(v string, i int) string {
+	if i%2 == 1 {
+		return "-" + v
+	}
+	return v
 }
